@@ -2,9 +2,12 @@
    Only ExtrOcamlBasic is used: bool, option, unit, list, prod, sumbool, sumor are mapped to the
    OCaml types; Z, N, positive, nat stay the extracted Coq datatypes.  No Extract Constant. *)
 From Coq Require Extraction ExtrOcamlBasic.
-From MS Require Import PyBase Buffer.
+From MS Require Import PyBase Buffer Bits Schc Compute.
 Extraction Language OCaml.
 Extraction "model.ml"
   b_new b_copy b_shift b_pad b_value b_getitem b_getitem_int b_add b_and b_or b_xor b_invert
   b_setitem b_setitem_int b_chunks b_eq b_eq_bytes b_hash_key b_iter b_len lsb_bytes prefix_value
-  key_match dict_get dict_set dict_of_list.
+  key_match dict_get dict_set dict_of_list
+  compress decompress match_packet_descriptor match_schc_packet cm_compress cm_decompress
+  schc_compress schc_decompress compute_functions encode_length decode_var field_match rule_matches
+  ipv6_payload_length ipv4_total_length ipv4_checksum udp_length udp_checksum sctp_checksum crc32c.
